@@ -32,7 +32,7 @@ def gen_program(rng, nstmts):
     prog.append({"op": "new", "v": 0, "m": m0})
     vars_m[0] = m0
     while len(prog) < nstmts:
-        op = rng.choice(["new", "add", "add", "add", "ifloordiv", "ifloordiv", "floordiv", "floordiv", "matmul",
+        op = rng.choice(["new", "add", "add", "add", "add_range", "ifloordiv", "ifloordiv", "floordiv", "floordiv", "matmul",
                          "imatmul", "barrier", "copy"])
         if op == "new":
             free = [v for v in range(nv) if v not in vars_m]
@@ -44,7 +44,7 @@ def gen_program(rng, nstmts):
             vars_m[v] = m
             continue
         mutable = [v for v in vars_m if v not in frozen]
-        if op in ("add", "ifloordiv", "imatmul", "barrier"):
+        if op in ("add", "add_range", "ifloordiv", "imatmul", "barrier"):
             if not mutable:
                 continue
             v = rng.choice(mutable)
@@ -81,6 +81,39 @@ def gen_program(rng, nstmts):
         else:
             off = rng.rint(0, max(0, m - k))
         st = {"op": op, "v": v, "off": off, "operand": operand}
+        if op == "add_range":
+            # the position given as an explicit list / tuple of modes: mostly the consecutive range (= the offset form),
+            # otherwise one of the shapes that must be refused
+            st["op"] = op = "add"
+            rg = list(range(off, off + k))
+            shape = "consecutive"
+            if rng.chance(1, 3):
+                shape = rng.choice(["permuted", "repeated", "gap", "short", "long", "negative", "reversed"])
+                if shape == "permuted" and k >= 2:
+                    i = rng.below(k - 1)
+                    rg[i], rg[i + 1] = rg[i + 1], rg[i]
+                    if k >= 4:          # same first and last mode as the consecutive range
+                        rg = [rg[0]] + rng.shuffle(rg[1:-1]) + [rg[-1]] if rg[0] == off and rg[-1] == off + k - 1 else rg
+                elif shape == "repeated" and k >= 2:
+                    i = rng.rint(1, k - 1)
+                    rg[i] = rg[i - 1]
+                    if k >= 3 and rng.chance(1, 2):      # keeps first, last and length: (o, o, o+2)
+                        rg = list(range(off, off + k)); rg[1] = rg[0]
+                elif shape == "gap" and k >= 2:
+                    rg = [x + (1 if j >= rng.rint(1, k - 1) else 0) for j, x in enumerate(rg)]
+                elif shape == "short" and k >= 2:
+                    rg = rg[:-1]
+                elif shape == "long":
+                    rg = rg + [rg[-1] + 1]
+                elif shape == "negative":
+                    rg = [x - off - 1 for x in rg]
+                elif shape == "reversed" and k >= 2:
+                    rg = rg[::-1]
+                else:
+                    shape = "consecutive"
+            st["range"] = rg
+            st["range_kind"] = rng.choice(["list", "tuple"])
+            st["range_shape"] = shape
         if op == "add":
             st["merge"] = rng.chance(1, 2)
         if op in ("floordiv", "matmul"):
@@ -90,6 +123,8 @@ def gen_program(rng, nstmts):
             st["dst"] = dst
         prog.append(st)
         ok = off + k <= m
+        if "range" in st:
+            ok = ok and st["range"] == list(range(off, off + k))
         if ok:
             tgt = st.get("dst", v)
             vars_m[tgt] = m
@@ -113,6 +148,8 @@ def enc_stmt(s):
     op = s["op"]
     if op == "new":
         return [0, s["v"], s["m"]]
+    if op == "add" and "range" in s:
+        return [8, s["v"], list(s["range"]), enc_operand(s["operand"]), s["merge"]]
     if op == "add":
         return [1, s["v"], s["off"], enc_operand(s["operand"]), s["merge"]]
     if op == "floordiv":
@@ -134,6 +171,9 @@ def show_stmt(s):
     op = s["op"]
     if op == "new":
         return f"c{s['v']} = Circuit({s['m']})"
+    if op == "add" and "range" in s:
+        pos = tuple(s["range"]) if s["range_kind"] == "tuple" else list(s["range"])
+        return f"c{s['v']}.add({pos}, {opnd(s['operand'])}, merge={s['merge']})"
     if op == "add":
         return f"c{s['v']}.add({s['off']}, {opnd(s['operand'])}, merge={s['merge']})"
     if op == "floordiv":
@@ -159,6 +199,9 @@ def impl_step(env, s):
     try:
         if op == "new":
             env[s["v"]] = pcvl.Circuit(s["m"])
+        elif op == "add" and "range" in s:
+            pos = tuple(s["range"]) if s["range_kind"] == "tuple" else list(s["range"])
+            env[s["v"]].add(pos, opnd(s["operand"]), merge=s["merge"])
         elif op == "add":
             env[s["v"]].add(s["off"], opnd(s["operand"]), merge=s["merge"])
         elif op == "floordiv":
@@ -209,7 +252,11 @@ def compare(prog, model_out):
         if ok_model != ok_impl:
             return (i, "accept-reject-" + s["op"], "statement accepted by one side and rejected by the other",
                     "accepted" if ok_model else "rejected", "accepted" if ok_impl else "rejected")
-        rep = impl_report(env)
+        try:
+            rep = impl_report(env)
+        except Exception as e:
+            return (i, f"report-exception-{type(e).__name__}", f"compute_unitary / listing of a variable raised {type(e).__name__}: {e} "
+                    f"after `{show_stmt(s)}`", "the ordered product of the parts", repr(e))
         for e in mo[1]:
             known[e[0]] = e
         if set(known) != set(rep):
@@ -276,12 +323,14 @@ def run(ctx):
     reported = set()
     for p, mo in zip(progs, outs):
         text = [show_stmt(s) for s in p]
-        key = [[s["op"], s.get("v"), s.get("dst"), s.get("off"), s.get("merge"), s.get("m"),
+        key = [[s["op"], s.get("v"), s.get("dst"), s.get("off"), s.get("merge"), s.get("m"), s.get("range"),
                 (s["operand"].get("var") if "var" in s.get("operand", {}) else (s["operand"]["leaf"].key() if "operand" in s else None))]
                for s in p]
         ctx.case(key, is_nontrivial(p), {"program": text})
         for s in p:
             ctx.count("op." + s["op"])
+            if "range" in s:
+                ctx.count("explicit-range." + s["range_shape"])
         ctx.count("len.%d" % len(p))
         r = compare(p, mo)
         if r is None:
